@@ -109,6 +109,20 @@ Theorem C06_one_broadcast : forall s0 ws progs ls,
   calls s <= 1 /\ (1 <= calls s -> status s = Stopped).
 Proof. intros s0 ws progs ls H s. apply one_broadcast. apply reach_inv; auto. Qed.
 
+(* model sanity: the Notify waiter list is exactly the set of parked, unflagged waiters (so
+   notify_waiters — defined as "flag every parked waiter" — and notify_one — defined as "pop
+   the head of the list" — are two views of the same list), without duplicates *)
+Theorem C06_waiter_list_exact : forall s0 ws progs ls w,
+  init_ok s0 ws ->
+  let s := run ls (mk_init s0 ws progs) in
+  NoDup (queue s) /\
+  (In w (queue s) <-> exists seen, nth_error (wpcs s) w = Some (WWait seen None)).
+Proof.
+  intros s0 ws progs ls w [_ H] s.
+  pose proof (InvQ_run ls _ (InvQ_init s0 ws progs H)) as Q. fold s in Q.
+  split; [apply (qND _ Q)|apply (qIn _ Q)].
+Qed.
+
 (* (6) the executable oracle accepts every run of the model (it cannot raise a false alarm
    on model-conforming behaviour); with the completeness flag when the run is maximal *)
 Theorem C06_oracle_sound : forall s0 ws c sup ls,
@@ -222,5 +236,6 @@ Print Assumptions C06_status_monotone.
 Print Assumptions C06_cleanup_once.
 Print Assumptions C06_cleanup_oracle_sound.
 Print Assumptions C06_one_broadcast.
+Print Assumptions C06_waiter_list_exact.
 Print Assumptions C06_oracle_sound.
 Print Assumptions C06_oracle_sound_complete.
